@@ -338,8 +338,21 @@ func (vc *VC) havocAll(st *State) {
 		}
 	}
 	sort.Strings(keys)
+	prot := vc.p.protectedGlobals()
 	for _, k := range keys {
-		vc.havocKey(st, k)
+		o := vc.get(st, k)
+		n := vc.havocKey(st, k)
+		if len(k) == 2 && k[0] == 'H' {
+			// package-level variables under a global invariant are written by
+			// their package initializer only and never escape: unknown code
+			// cannot change them
+			for _, g := range prot {
+				n = tSto(n, tInt(int64(g)), tSel(o, tInt(int64(g))))
+			}
+			if len(prot) > 0 {
+				vc.set(st, k, n)
+			}
+		}
 	}
 	na := vc.get(st, vc.allocKey())
 	vc.assumeRaw(tLe(oldAlloc, na))
